@@ -249,6 +249,7 @@ def serviceStep (st : ServiceSt) (toks : List String) : ServiceSt × String :=
   | ["spermit", _] => (st, "ok")   -- the permit list concerns the packet filter only
   | ["sevresub", _] => (st, "ok")  -- a new event stream: what is observed does not change
   | ["ssleep", _] => (st, "ok")
+  | ["sbanfill", _] => (st, "ok")  -- entries already on the ban lists are not news
   | "sidle" :: x :: sfx =>
     match getInst st x with
     | none => (st, "noop")
